@@ -88,8 +88,7 @@ class Run(object):
         self.l.log = []
         try:
             if e["a"] == "Event":
-                self.am.update(self.line(e))
-                self.clock.advance(0)       # let zero-delay timers run (quiescence)
+                self.am.update(self.line(e))        # no reactor turn: zero-delay timers run at the next Advance (dt may be 0)
             else:
                 self.clock.advance(e["dt"] * self.tick)
         except Exception as ex:
